@@ -45,7 +45,9 @@ class StmtMixin:
         if z3.is_false(c):
             return False
         k = self.choose(2)
-        self.pc.append(cond if k == 0 else z3.Not(cond))
+        t = cond if k == 0 else z3.Not(cond)
+        self.pc.append(t)
+        self.dec_ids.add(t.get_id())
         self.prune()
         return k == 0
 
@@ -473,6 +475,8 @@ class StmtMixin:
                     im = self.iter_model(itv)
                     if im is None:
                         raise Unsupported('comprehension over a tuple')
+                    if k == 0:
+                        self._last_im = im
                 g = z3.And(bvars[k] >= im['start'], bvars[k] < im['n']())
                 guards.append(g)
                 self.pc.append(g)
@@ -510,6 +514,19 @@ class StmtMixin:
             old_arrs = None
         vterms = self.to_terms(val, elem_t)
         sl = ty.slots(elem_t)
+        if m == 1 and len(guards) == 1 and z3.is_true(z3.simplify(z3.Or([c for c, _ in yes]))) and not extend:
+            # no filter: R[i] = f(E(start + i)), len(R) = number of source elements (plain map law)
+            im0 = first_iter if first_iter is not None else self._last_im
+            n_src = im0['n']() - im0['start']
+            cntm = z3.If(n_src > 0, n_src, z3.IntVal(0))
+            arrs = [self.fresh('map', z3.ArraySort(I, self.ctx.sort_of(s_))) for s_ in sl]
+            idx = z3.Int(f'm!{tag}')
+            for na, vt in zip(arrs, vterms):
+                self.fact(z3.ForAll([idx], z3.Implies(z3.And(0 <= idx, idx < cntm),
+                                                      z3.Select(na, idx) == z3.substitute(vt, (bvars[0], im0['start'] + idx)))))
+            Rm = self.alloc(ty.TList(elem_t))
+            self.list_set_all(Rm, cntm, arrs)
+            return Rm
         new_arrs = [self.fresh('comp', z3.ArraySort(I, self.ctx.sort_of(s))) for s in sl]
         cnt = self.fresh('cnt', I)
         self.fact(cnt >= 0)
